@@ -254,6 +254,38 @@ def _csv_append(tier, seed):
 group('csv.append', _csv_append)(check_csv)
 
 
+def _csv_bom_compressed(tier, seed):
+    """byte-order-mark encodings on COMPRESSED targets (the plain-path / memory cases are in csv.append): one write, and a
+    write followed by one / two appends"""
+    t0, t1 = [('f0', 'f1'), ('a', 'b')], [('f0', 'f1'), ('c', '\u00e9')]
+    for enc in ('utf-16', 'utf-8-sig', 'utf-32'):
+        for kind in ('gz', 'bz2'):
+            for fam in ('csv', 'tsv'):
+                yield (fam, enc, kind, (t0,))
+                yield (fam, enc, kind, (t0, t1))
+                yield (fam, enc, kind, (t0, t1, t0))
+
+
+def check_csv_bom_compressed(inp):
+    fam, enc, kind, tabs = inp
+    to, app, frm = ((etl.tocsv, etl.appendcsv, etl.fromcsv) if fam == 'csv' else (etl.totsv, etl.appendtsv, etl.fromtsv))
+    exp = [tuple(str(c) for c in r) for r in stream(tuple((t, None) for t in tabs))]
+    sub = '%s/%s/%s' % (enc, kind, 'write-read' if len(tabs) == 1 else 'append')      # one key per (encoding, target kind, sequence)
+    with workdir(True) as d:
+        tg = Target(kind, d, 'x.' + fam)
+        to(tabs[0], tg.obj, encoding=enc)
+        for t in tabs[1:]:
+            app(t, tg.obj, encoding=enc)
+        try:
+            got = [r for r in frm(tg.reader(), encoding=enc)]
+        except UnicodeError as e:
+            got = 'UnicodeError: %s' % e
+        expect(same(got, exp), sub, exp, got)
+
+
+group('csv.bom-compressed', _csv_bom_compressed)(check_csv_bom_compressed)
+
+
 def _rand_table(rnd, cells, maxrows, width=None, hdr_special=False):
     w = rnd.choice((0, 1, 2, 2)) if width is None else width
     hdr = tuple(rnd.choice(TEXT) for _ in range(w)) if hdr_special else tuple('f%d' % i for i in range(w))
